@@ -744,7 +744,7 @@ class EndpointResponseHandlerGenerator:
             # Generate return statement based on python_type
             if python_type == "bytes":
                 writer.write_line("return response.content")
-            elif python_type == "str":
+            elif python_type == "str" and "json" not in content_type_lower:
                 writer.write_line("return response.text")
             elif self._should_use_cattrs_structure(python_type):
                 # Complex type - use cattrs deserialization
